@@ -90,11 +90,13 @@ pub fn tkhd(p: &[u8], dev: &mut Vec<String>) -> Option<TkhdS> {
             return None;
         }
     };
+    if f & 1 == 0 {
+        dev.push("tkhd: track_enabled flag not set".into());
+    }
     if p.len() != want {
+        // field positions cannot be trusted: report the size and stop
         dev.push(format!("tkhd: payload size {} not {} for version {}", p.len(), want, v));
-        if p.len() < want {
-            return None;
-        }
+        return None;
     }
     let (id, dur, o) = if v == 0 { (be32(&p[12..]), be32(&p[20..]) as u64, 24) } else { (be32(&p[20..]), be64(&p[28..]), 36) };
     let res1 = if v == 0 { &p[16..20] } else { &p[24..28] };
